@@ -294,6 +294,31 @@ def rawPartial (st : ConnSt) : Bool :=
   | _ => true
 
 /-- Big-endian u64 (a request tag). -/
+/-- Byte `i` of the body of a BIG answer (`B` op; harness `big_body`): a fixed pattern; with a victim stream and a
+body long enough, the 17 bytes from offset 2^20 on are a whole RESULT frame addressed to that stream. -/
+def bigByte (len : Nat) (victim : Option Nat) (i : Nat) : UInt8 :=
+  match victim with
+  | some vs =>
+    if len ≥ 1048576 + 17 && i ≥ 1048576 && i < 1048576 + 17 then
+      let o := i - 1048576
+      if o == 0 then 0x84 else if o == 1 then 0 else if o == 2 then UInt8.ofNat (vs / 256)
+      else if o == 3 then UInt8.ofNat (vs % 256) else if o == 4 then 0x08 else if o < 8 then 0
+      else if o == 8 then 8 else 0xEE
+    else UInt8.ofNat (i % 251)
+  | none => UInt8.ofNat (i % 251)
+
+def fnvLoop (len : Nat) (victim : Option Nat) : Nat → Nat → UInt32 → UInt32
+  | 0, _, h => h
+  | fuel + 1, i, h => fnvLoop len victim fuel (i + 1) ((h ^^^ (bigByte len victim i).toUInt32) * 16777619)
+
+/-- How the harness prints a body longer than 64 bytes: its length and FNV-1a. The frame read of the model
+(`FrameStream.readFrame`) takes exactly the announced `length` bytes whatever their number - there is no 1 MiB bound
+in it; the buffer growth of `read_response_frame` beyond `MAX_BODY_PREALLOCATION` (preallocate min(length, 1 MiB),
+then grow as the body arrives, the read LIMIT staying `length`) is C08's `readBodyLoop` / `readBody`
+(`Model/FrameHdr.lean`); `Props.C10.large_body_is_read_whole`. -/
+def bigTag (len : Nat) (victim : Option Nat) : String :=
+  s!"big:{len}:{(fnvLoop len victim len 0 2166136261).toNat}"
+
 def tagBytes (k : Nat) : List UInt8 :=
   (List.range 8).map fun i => UInt8.ofNat (k / 256 ^ (7 - i) % 256)
 
@@ -336,6 +361,22 @@ def connOp (st : ConnSt) (op : String) : Option ConnSt :=
       | some bytes =>
         if st.eof then some st else
         some (settle (runReader { st with inbuf := st.inbuf ++ bytes }))
+    else if c == 'B' then
+      -- `B<j>:<len>:<k>:<cut>`: the j-th request the server holds is answered with a body of `len` bytes (whose tail
+      -- is addressed to the k-th one's stream), in one or two writes: for the model ONE frame, whatever its length
+      match (arg.splitOn ":").map String.toNat? with
+      | [some j, some len, some k, some _cut] =>
+        if len < 65 || len > 8388608 || st.events || st.ka.isSome then none else
+        if st.eof || rawPartial st then some st else
+        let vis := st.c.server.length - st.hidden
+        if j < vis then
+          match st.c.server[j]? with
+          | some (_, r) =>
+            let victim := if k != j && k < vis then (st.c.server[k]?).map (·.1) else none
+            some (settle (via { st with bodies := (r, bigTag len victim) :: st.bodies } (.respond j)))
+          | none => some st
+        else some st
+      | _ => none
     else if c == 'u' then
       match arg.toInt? with
       | none => none
